@@ -151,7 +151,7 @@ var stubByteLitCalls int
 // constant, or a typed byte expression using a key).
 func stubByteLit(rand *mathrand.Rand, val byte, extKeys []*externalKey, p externalKeyProbability) ast.Expr {
 	stubByteLitCalls++
-	if stubByteLitCalls <= 2 && symx.Choose(2) == 1 {
+	if stubByteLitCalls <= 2 && stubShape(stubByteLitCalls) == 1 {
 		key := extKeys[0]
 		key.AddRef()
 		return operatorToReversedBinaryExpr(token.XOR, ah.CallExprByName("byte", ah.IntLit(int(val^byte(key.value)))), key.ToExpr(0))
@@ -159,7 +159,19 @@ func stubByteLit(rand *mathrand.Rand, val byte, extKeys []*externalKey, p extern
 	return ah.IntLit(int(val))
 }
 
+var stubShapes [3]int
+
+// stubShape picks the shape of the k-th stubbed byte literal once per path, so
+// that a second run of the same code (2-safety harnesses) sees the same shape.
+func stubShape(k int) int {
+	if stubShapes[k] == 0 {
+		stubShapes[k] = 1 + symx.Choose(2)
+	}
+	return stubShapes[k] - 1
+}
+
 func installStubs() {
+	stubShapes = [3]int{}
 	stubByteLitCalls = 0
 	symx.Stub(pkgPath+"dataToByteSliceWithExtKeys", stubExtKeySlice)
 	symx.Stub(pkgPath+"byteLitWithExtKey", stubByteLit)
